@@ -92,7 +92,7 @@ class C04(Prop):
                   'against the real parser (stub decoder on both sides) and against TransportTCP, TransportAioHttpWebsocket and the QUIC transport with the real decoder. '
                   'Transport.lean models the receiver loop over TransportTCP.next_frame_generator read by read (data / end of stream / failing read) and over the queue of a message transport: '
                   'c04_tcp_reads_then_eof (whatever arrived complete before the end of the stream is dispatched, also from the last read, however read() cut it), c04_tcp_any_two_read_sequences, c04_tcp_frames_exact, '
-                  'c04_tcp_error_after_reads, c04_tcp_open_is_parser, c04_tcp_empty_read_is_eof, c04_msg_queue_exact; c04_tcp_link_exact (Props/C04Link.lean) composes codec, partial writes, parser and transport loop: the writes of TransportTCP.send_frame for any list of legal frames, read back in any non-empty pieces and followed by the end of the stream, are dispatched as exactly those frames; compared with a real TransportTCP over a real StreamReader on scripted reads.')
+                  'c04_tcp_error_after_reads, c04_tcp_open_is_parser, c04_tcp_empty_read_is_eof, c04_msg_queue_exact; c04_ws_messages_exact / c04_ws_failure_after_messages (the message pump of the websocket transports: every non-empty binary message contributes its own decoding, other kinds of message and empty ones nothing, a failing websocket loses nothing received before it) compared with the aiohttp client and server transports on scripted websockets; c04_tcp_link_exact (Props/C04Link.lean) composes codec, partial writes, parser and transport loop: the writes of TransportTCP.send_frame for any list of legal frames, read back in any non-empty pieces and followed by the end of the stream, are dispatched as exactly those frames; compared with a real TransportTCP over a real StreamReader on scripted reads.')
     level_note = ('Trusted: Lean kernel + standard axioms; model fidelity as far as the correspondence reaches; asyncio.StreamReader.read semantics; '
                   'bytearray slicing = List.take/drop.')
     design_ref = '§5 C04'
@@ -180,6 +180,21 @@ class C04(Prop):
             out.append({'kind': 'tcploop', 'bodies': [b.hex() for b in bodies], 'tail': tail.hex(), 'groups': groups, 'ending': ending,
                         'read': rng.choice([1, 2, 3, 5, 64, 1024, 1 << 16]), 'style': style,
                         'exc': rng.choice(['ConnectionResetError', 'TimeoutError', 'OSError', 'BrokenPipeError'])})
+        # the message pump + receiver loop of the aiohttp websocket transports (client and server side) on scripted websockets: binary
+        # messages (valid, undecodable, ignored, empty), messages of other kinds in between, an iteration that fails; model: Transport.pump
+        for i in range(400 if tier == 'quick' else 12000):
+            msgs = []
+            for _ in range(rng.randint(0, 7)):
+                x = rng.random()
+                if x < 0.7:
+                    first = rng.choice([b'', b'\xee', b'\xdd', bytes([rng.randint(0, 255)])])
+                    msgs.append(['b', (first + (FR.rbytes(rng, 0, 12) if first else b'')).hex()])
+                else:
+                    msgs.append(['t'])
+            if rng.random() < 0.4:
+                msgs.insert(rng.randint(0, len(msgs)), ['x'])
+            out.append({'kind': 'wsloop', 'side': rng.choice(['client', 'server']), 'msgs': msgs,
+                        'exc': rng.choice(['ConnectionResetError', 'RuntimeError', 'OSError'])})
         # bursts: hundreds of small frames that are all there before the consumer runs once (one big read / one batch of messages)
         for i in range(15 if tier == 'quick' else 60):
             kind = ['wsmsg', 'tcp', 'quic'][i % 3]
@@ -221,6 +236,8 @@ class C04(Prop):
         kind = case['kind']
         if kind == 'tcploop':
             return self._tcploop(case, lp)
+        if kind == 'wsloop':
+            return self._wsloop(case, lp)
         if kind == 'stub':
             data = b''.join(len(bytes.fromhex(b)).to_bytes(3, 'big') + bytes.fromhex(b) for b in case['bodies']) + bytes.fromhex(case['tail'])
             chunks = cut(data, case['cuts'])
@@ -456,6 +473,61 @@ class C04(Prop):
         items, ok = lp.run_until_complete(go())
         return {'expected': expected, 'valid_only': valid_only, 'runs': {'read=%d' % case['read']: {'items': items, 'residual': '', 'terminated': ok}}, 'nbytes': len(data)}
 
+    def _wsloop(self, case, lp):
+        import builtins
+        import aiohttp
+        import rsocket.frame_parser as fp
+        from rsocket.exceptions import RSocketTransportError
+        from rsocket.transports.aiohttp_websocket import TransportAioHttpWebsocket, TransportAioHttpClient
+
+        class Msg:
+            def __init__(self, kind, data=None):
+                self.type = aiohttp.WSMsgType.BINARY if kind == 'b' else aiohttp.WSMsgType.TEXT
+                self.data = data if kind == 'b' else 'hello'
+
+        class WS:
+            def __aiter__(self):
+                async def it():
+                    for m in case['msgs']:
+                        if m[0] == 'x':
+                            raise getattr(builtins, case['exc'])('scripted')
+                        yield Msg(m[0], bytes.fromhex(m[1]) if m[0] == 'b' else None)
+                return it()
+
+        async def go():
+            if case['side'] == 'server':
+                t = TransportAioHttpWebsocket(WS())
+            else:
+                t = TransportAioHttpClient(websocket=WS())
+                t._connection_ready.set()
+            pump_raised = None
+            try:
+                await asyncio.wait_for(t.handle_incoming_ws_messages(), 5)
+            except Exception as e:
+                pump_raised = type(e).__name__
+            items, end = [], 'open'
+            for _ in range(20 * len(case['msgs']) + 5):
+                if t._incoming_frame_queue.empty():
+                    break
+                try:
+                    g = await t.next_frame_generator()
+                    async for fr in g:
+                        items.append('X' if not isinstance(fr, str) else fr)
+                except RSocketTransportError:
+                    end = 'failed'
+                    break
+                except Exception as e:
+                    items.append('RAISED:' + type(e).__name__)
+                    end = 'failed'
+                    break
+            return {'items': items, 'end': end, 'pump_raised': pump_raised}
+        orig = fp.parse_or_ignore
+        fp.parse_or_ignore = stub
+        try:
+            return lp.run_until_complete(go())
+        finally:
+            fp.parse_or_ignore = orig
+
     def _tcploop(self, case, lp):
         import builtins
         import rsocket.frame_parser as fp
@@ -531,6 +603,8 @@ class C04(Prop):
     def model_lines(self, case, obs):
         if case['kind'] == 'tcploop':
             return ['tcp ' + ' '.join(obs['reads'])] if obs['reads'] else []
+        if case['kind'] == 'wsloop':
+            return ['ws %s %s' % (case['side'], ' '.join(('b' + (m[1] or '-')) if m[0] == 'b' else m[0] for m in case['msgs']))]
         if case['kind'] == 'stub':
             return ['drain - ' + ' '.join(c or '-' for c in obs['chunks'])]
         if case['kind'] == 'msg' and not case['real']:
@@ -542,6 +616,11 @@ class C04(Prop):
 
     def compare(self, case, obs, answers):
         if not answers:
+            return None
+        if case['kind'] == 'wsloop':
+            impl = '%s | %s' % (' '.join(obs['items']), obs['end'])
+            if impl != answers[0]:
+                return 'websocket pump + receiver loop (%s side), messages %s: impl %s / model %s' % (case['side'], case['msgs'][:8], impl[:200], answers[0][:200])
             return None
         if case['kind'] == 'tcploop':
             impl = '%s | %s' % (' '.join(obs['items']), 'reading ' + (obs['residual'] or '-') if obs['end'] == 'reading' else obs['end'])
@@ -568,6 +647,23 @@ class C04(Prop):
     def oracle(self, case, obs):
         fails = []
         kind = case['kind']
+        if kind == 'wsloop':
+            # independent of the model: every non-empty binary message before a failure contributes its own decoding, in order, nothing else does
+            exp = []
+            for m in case['msgs']:
+                if m[0] == 'x':
+                    break
+                if m[0] == 'b' and m[1]:
+                    exp += stub_expected(bytes.fromhex(m[1]))
+            failing = any(m[0] == 'x' for m in case['msgs'])
+            how = '%s side, messages %s' % (case['side'], [m[0] + (m[1][:8] if len(m) > 1 else '') for m in case['msgs']][:10])
+            if obs['items'] != exp:
+                fails.append({'signature': 'message-frames-differ', 'what': 'aiohttp websocket transport (%s): frames dispatched %s, the messages contain %s' % (how, obs['items'][:6], exp[:6])})
+            elif failing and case['side'] == 'client' and obs['end'] != 'failed':
+                fails.append({'signature': 'websocket-failure-not-reported', 'what': 'aiohttp websocket client transport (%s): the failing websocket left the receiver %s' % (how, obs['end'])})
+            elif failing and case['side'] == 'server' and obs['pump_raised'] != 'RSocketTransportError':
+                fails.append({'signature': 'websocket-failure-not-reported', 'what': 'aiohttp websocket server transport (%s): the failing websocket ended the pump with %s' % (how, obs['pump_raised'])})
+            return fails
         if kind == 'tcploop':
             # independent of the model: the frames the bytes contain, decided from the script alone
             data = b''.join(len(bytes.fromhex(b)).to_bytes(3, 'big') + bytes.fromhex(b) for b in case['bodies']) + bytes.fromhex(case['tail'])
@@ -647,6 +743,8 @@ class C04(Prop):
 
     def nontrivial(self, case, obs):
         k = case['kind']
+        if k == 'wsloop':
+            return json.dumps([case['side'], case['msgs']]) if len(case['msgs']) >= 2 else None
         if k == 'tcploop':
             return json.dumps([case['bodies'], case['tail'], case['groups'], case['read']]) if len(case['bodies']) >= 2 and len(obs['reads']) >= 3 else None
         if k == 'stub':
@@ -661,6 +759,12 @@ class C04(Prop):
 
     def stats(self, case, obs):
         yield 'kind=' + case['kind']
+        if case['kind'] == 'wsloop':
+            yield 'wsloop-side=' + case['side']
+            yield 'wsloop-end=' + obs['end']
+            if any(m[0] == 't' for m in case['msgs']):
+                yield 'wsloop-has-non-binary'
+            return
         if case['kind'] == 'tcploop':
             yield 'tcploop-ending=' + case['ending']
             yield 'tcploop-end=' + obs['end']
@@ -687,6 +791,10 @@ class C04(Prop):
                 yield 'read=%d' % case['read']
 
     def shrink_candidates(self, case):
+        if case['kind'] == 'wsloop':
+            for i in range(len(case['msgs'])):
+                yield dict(case, msgs=case['msgs'][:i] + case['msgs'][i + 1:])
+            return
         if case['kind'] == 'tcploop':
             for i in range(len(case['groups']) - 1):
                 yield dict(case, groups=case['groups'][:i] + [case['groups'][i] + case['groups'][i + 1]] + case['groups'][i + 2:])
